@@ -33,7 +33,10 @@ fn addr_limbs(a: u64) -> Value {
 pub fn universe(rng: &mut Rng) -> Vec<il::Scalar> {
     let mut v = vec![il::scalar("c0", 1), il::scalar("c1", 2)];
     v.push(il::scalar("x", 8));
-    v.push(il::scalar("y", 8));
+    // names carry no meaning in the IL; half of the programs use names shaped like the lifters' (a temporary, a
+    // flag, a register), so that anything keyed on a name rather than on the data flow shows up
+    let lifterish = rng.bool();
+    v.push(il::scalar(if lifterish { "temp_0x1000_0" } else { "y" }, 8));
     if rng.bool() {
         v.push(il::scalar("z", 16));
     }
